@@ -232,7 +232,8 @@ Proof.
     destruct (negb (state s =? ST_CONNECTING)); [reflexivity|].
     cbv zeta. rewrite cv_set_state.
     destruct (c_passive (cf s)); [reflexivity|]. cv_norm. apply cv_send_contact_header.
-  - destruct (closed s); [reflexivity|]. cbv zeta.
+  - destruct (closed s); [reflexivity|].
+    destruct (in_term s); [apply cv_emit|]. cbv zeta.
     rewrite cv_emit, cv_pq_trigger. cv_norm. reflexivity.
   - destruct (closed s); [reflexivity|].
     destruct (negb (in_sess s)); [apply cv_do_close|].
